@@ -12,8 +12,8 @@ if [ $apply = ok ]; then
   build=ok; (cd "$S/mut" && go build ./... ) >/dev/null 2>&1 || build=FAIL
   if [ $build = ok ]; then
     tests=ok; (cd "$S/mut" && go test -vet=off -count=1 ./... ) >"$S/test.log" 2>&1 || tests=FAIL
-    sh "$D/demo/run.sh" "$S/mut" >"$S/demo_mut.log" 2>&1; dm=$?
-    sh "$D/demo/run.sh" "$S/clean" >"$S/demo_clean.log" 2>&1; dc=$?
+    $(head -1 "$D/demo/run.sh" | grep -q bash && echo bash || echo sh) "$D/demo/run.sh" "$S/mut" >"$S/demo_mut.log" 2>&1; dm=$?
+    $(head -1 "$D/demo/run.sh" | grep -q bash && echo bash || echo sh) "$D/demo/run.sh" "$S/clean" >"$S/demo_clean.log" 2>&1; dc=$?
   fi
 fi
 echo "$1 apply=$apply build=$build tests=$tests demo_mut_exit=$dm demo_clean_exit=$dc"
